@@ -314,7 +314,8 @@ def tripleProduct(a: Vec3, b: Vec3, c: Vec3) -> float:
     Returns:
         scalar result a · (b × c)
     """
-    # Compute cross product b × c using global temp vector
+    # Compute cross product b × c into a per-call temporary (module-level scratch is not thread safe)
+    crossCD = [0.0, 0.0, 0.0]
     cross(crossCD, b, c)
     # Return dot product a · (b × c)
     return dot(a, crossCD)
@@ -344,6 +345,8 @@ def vectorDifference(A: "Cartesian", B: "Cartesian") -> float:
     # ⇒ sqrt(1 - cos(x)) = sqrt(2) * sin(x/2) 
     # Angle x/2 can be obtained as the angle between A and the normalized midpoint of A and B
     # ⇒ sin(x/2) = |cross(A, midpointAB)|
+    midpointAB = [0.0, 0.0, 0.0]
+    crossCD = [0.0, 0.0, 0.0]
     lerp(midpointAB, A, B, 0.5)
     normalize(midpointAB, midpointAB)
     cross(midpointAB, A, midpointAB)
@@ -368,6 +371,9 @@ def quadrupleProduct(out: Vec3, A: "Cartesian", B: "Cartesian", C: "Cartesian", 
     Returns:
         out
     """
+    crossCD = [0.0, 0.0, 0.0]
+    scaledA = [0.0, 0.0, 0.0]
+    scaledB = [0.0, 0.0, 0.0]
     cross(crossCD, C, D)
     triple_product_acd = dot(A, crossCD)
     triple_product_bcd = dot(B, crossCD)
@@ -394,6 +400,8 @@ def slerp(out: Vec3, A: "Cartesian", B: "Cartesian", t: float) -> "Cartesian":
     
     weight_a = math.sin((1 - t) * gamma) / math.sin(gamma)
     weight_b = math.sin(t * gamma) / math.sin(gamma)
+    scaledA = [0.0, 0.0, 0.0]
+    scaledB = [0.0, 0.0, 0.0]
     scale(scaledA, A, weight_a)
     scale(scaledB, B, weight_b)
     add(out, scaledA, scaledB)
